@@ -97,3 +97,45 @@ impl Args {
         self.get(k).map(|s| s.split(',').filter(|x| !x.is_empty()).map(|x| x.to_string()).collect()).unwrap_or_default()
     }
 }
+
+/// CPU time (user + system) consumed by this process so far, in milliseconds (from /proc).
+pub fn process_cpu_ms() -> u64 {
+    let stat = match std::fs::read_to_string("/proc/self/stat") {
+        Ok(s) => s,
+        Err(_) => return 0,
+    };
+    // the command name (field 2) may contain spaces: skip past the closing parenthesis
+    let rest = match stat.rfind(')') {
+        Some(i) => &stat[i + 1..],
+        None => return 0,
+    };
+    let f: Vec<&str> = rest.split_whitespace().collect();
+    // rest starts at field 3: utime is field 14, stime field 15
+    let ticks: u64 = f.get(11).and_then(|x| x.parse().ok()).unwrap_or(0) + f.get(12).and_then(|x| x.parse().ok()).unwrap_or(0);
+    ticks * 10
+}
+
+/// Deadlock criterion that does not depend on how loaded the machine is: the work is not
+/// finished, yet the whole process has consumed (almost) no CPU time for `window`: every thread
+/// is blocked, and nobody is left to unblock them.
+pub struct IdleWatch {
+    last_cpu: u64,
+    since: std::time::Instant,
+    window: std::time::Duration,
+}
+
+impl IdleWatch {
+    pub fn new(window_secs: u64) -> IdleWatch {
+        IdleWatch { last_cpu: process_cpu_ms(), since: std::time::Instant::now(), window: std::time::Duration::from_secs(window_secs) }
+    }
+    /// Call periodically while waiting. Returns true when the process has been idle for the window.
+    pub fn idle(&mut self) -> bool {
+        let cpu = process_cpu_ms();
+        if cpu > self.last_cpu + 20 {
+            self.last_cpu = cpu;
+            self.since = std::time::Instant::now();
+            return false;
+        }
+        self.since.elapsed() > self.window
+    }
+}
